@@ -1,5 +1,6 @@
 import Driver.Common
 import TxdbusModel.Obj.Props
+import TxdbusModel.Obj.PropsFamily
 /-!
 Driver for property C17 (model `Txdbus.Obj.Props`).  One line in, one line out.
 
@@ -10,6 +11,10 @@ Driver for property C17 (model `Txdbus.Obj.Props`).  One line in, one line out.
                                           dbusInterfaces; r,w in 0/1; e in t f i c             -> ok | typeerror
   desc <attr> <pname> <iface|~>           DBusProperty(pname, iface) class attribute            -> ok
   bind                                    build every class cache                               -> ok | declerr
+  family                                  the chain is a class FAMILY (Obj/PropsFamily.lean): no cache is built,
+                                          instances of any class of the chain are created by `new`   -> ok | declerr
+  new <o> <level>                         instance o of class <level> (0 = most derived) is created and walks its
+                                          class caches                                          -> done | raised
   export <o> | assign <o> <attr> <val> | get <o> <iface> <pname> | set <o> <iface> <pname> <val>
   | getall <o> <iface>                                                                        -> outputs joined by " | "
 
@@ -26,6 +31,7 @@ structure DS where
   bad : Bool := false
   world : Option World := none
   st : St := St.init
+  fam : Option (Decls × FSt) := none
 
 def parseInt? (s : String) : Option Int :=
   match s.toList with
@@ -126,6 +132,11 @@ def parseProps : List String → Option (List RawProp)
   | _ => none
 
 def runOp (d : DS) (op : Op) : DS × String :=
+  match d.fam with
+  | some (D, s) =>
+    let r := fstep d.cfg D s (.op op)
+    ({ d with fam := some (D, r.1) }, showOuts r.2)
+  | none =>
   match d.world with
   | none => (d, "nodecl")
   | some W =>
@@ -158,6 +169,15 @@ def stepLine (d : DS) (line : String) : DS × String :=
     match elaborate d.classes.reverse with
     | some W => ({ d with world := some W, st := St.init }, "ok")
     | none => (d, "declerr")
+  | ["family"] =>
+    if d.bad then (d, "declerr") else
+    ({ d with world := none, fam := some (d.classes.reverse, FSt.init d.classes.reverse) }, "ok")
+  | ["new", o, k] =>
+    match d.fam, o.toNat?, k.toNat? with
+    | some (D, s), some o, some k =>
+      let r := fstep d.cfg D s (.new o k)
+      ({ d with fam := some (D, r.1) }, showOuts r.2)
+    | _, _, _ => (d, "parse-error")
   | ["export", o] =>
     match o.toNat? with
     | some o => runOp d (.export o)
